@@ -207,7 +207,8 @@ pub struct FarCase {
 
 pub fn check_far(c: &FarCase) -> Result<(), String> {
     let max = if c.chunk == 0 { u64::MAX } else { 1024u64 << c.chunk.trailing_zeros() };
-    let room = (u64::MAX - c.chunk * 1024).min(max);
+    // a subtree may extend to the very end of the counter space (byte 2^64): max_subtree_len() allows exactly that
+    let room = core::cmp::min(((1u128 << 64) - c.chunk as u128 * 1024) as u128, max as u128) as u64;
     let len = core::cmp::max(1, core::cmp::min(c.len as u64, room)) as usize;
     let data = c.content.expand(len);
     let got_max = hazmat::max_subtree_len(c.chunk * 1024);
